@@ -193,6 +193,51 @@ Proof.
   - discriminate.
 Qed.
 
+(* (5) is empty when every map has a key and a mapped type whose copies cannot allocate *)
+Lemma temps_free : forall t, map_ok t = true -> forall v, Forall (fun p => copy_free (fst p) = true) (temps t v).
+Proof.
+  induction t using ty_ind'; intros Hq v; cbn [map_ok] in Hq; try (cbn [temps]; constructor).
+  - (* Seq *) cbn [temps]. destruct v; try constructor. destruct (arith_w t); [constructor|].
+    apply leaf_zip_Forall, Forall_repeat. auto.
+  - (* FwdList *) cbn [temps]. destruct v; try constructor. apply leaf_zip_Forall, Forall_repeat. auto.
+  - (* Arr *) cbn [temps]. destruct v; try constructor. destruct (arith_w t); [constructor|].
+    apply leaf_zip_Forall, Forall_repeat. auto.
+  - (* Opt *) cbn [temps]. destruct v as [| | | |[x|]]; try constructor. auto.
+  - (* Pair *) apply andb_prop in Hq. destruct Hq as [Ha Hb]. cbn [temps]. unfold pairL.
+    destruct v; try constructor. apply leaf_zip_Forall. repeat constructor; auto.
+  - (* Tuple *) cbn [temps]. destruct v; try constructor. apply leaf_zip_Forall.
+    induction H as [|t ts Ht _ IH]; cbn [map]; [constructor|].
+    cbn [forallb] in Hq. apply andb_prop in Hq. destruct Hq as [Hq1 Hq2]. constructor; auto.
+  - (* MapLike *) apply andb_prop in Hq. destruct Hq as [Hq Hm2]. apply andb_prop in Hq. destruct Hq as [Hq Hm1].
+    apply andb_prop in Hq. destruct Hq as [Hc1 Hc2]. cbn [temps].
+    destruct v; try constructor.
+    assert (Hz : Forall (fun p => copy_free (fst p) = true)
+                        (leaf_zip (repeat (pairT t1 t2 (temps t1) (temps t2)) (length l)) l)).
+    { apply leaf_zip_Forall, Forall_repeat. intro x. unfold pairT. destruct x as [| | |l0|]; try constructor.
+      apply Forall_app. split.
+      - destruct l0 as [|e1 [|e2 [|e3 l0]]]; repeat constructor; assumption.
+      - apply leaf_zip_Forall. repeat constructor; auto. }
+    destruct (arith_w t1); [destruct (arith_w t2); [constructor | exact Hz] | exact Hz].
+Qed.
+
+Lemma stmt_temps_free : forall ts, forallb map_ok ts = true -> forall vs,
+  Forall (fun p => copy_free (fst p) = true) (stmt_temps ts vs).
+Proof.
+  intros ts Hq vs. unfold stmt_temps. apply leaf_zip_Forall.
+  induction ts as [|t ts IH]; cbn [map]; [constructor|].
+  cbn [forallb] in Hq. apply andb_prop in Hq. destruct Hq as [H1 H2].
+  constructor; [intro v; now apply temps_free | auto].
+Qed.
+
+(* one pass over listed arguments allocates nothing by itself *)
+Lemma listed_no_pass_alloc ts vs e : forallb no_excluded ts = true -> forallb map_ok ts = true ->
+  pass_allocs e ts vs = [].
+Proof.
+  intros H1 H2. unfold pass_allocs. rewrite (listed_no_leaf_alloc ts vs e H1). cbn [app].
+  apply flat_map_nil. eapply Forall_impl; [|apply (stmt_temps_free ts H2 vs)].
+  intros p Hp. unfold temp_alloc. now rewrite Hp.
+Qed.
+
 (* only Direct leaves are formatted on the caller *)
 Lemma leaf_fmt_direct lv : Forall (fun p => fst p = Direct) (flat_map leaf_fmt lv).
 Proof.
@@ -289,27 +334,27 @@ Theorem steady_no_alloc_cap : forall cf s ts vs dyn,
   t_reg s = true -> iv_wf (t_cache s) ->
   N.of_nat (stmt_cached ts vs) <= iv_cap (t_cache s) ->
   fits (t_node s) (stmt_total ts vs dyn) = true ->
-  forallb no_excluded ts = true ->
+  forallb no_excluded ts = true -> forallb map_ok ts = true ->
   allocs (snd (log_step cf s ts vs dyn)) = [] /\ res (snd (log_step cf s ts vs dyn)) = LEnqueued /\
   iv_cap (t_cache (fst (log_step cf s ts vs dyn))) = iv_cap (t_cache s).
 Proof.
-  intros cf s ts vs dyn Hr W Hc Hf Hl. unfold log_step. rewrite (register_registered cf s Hr).
+  intros cf s ts vs dyn Hr W Hc Hf Hl Hm. unfold log_step. rewrite (register_registered cf s Hr).
   destruct (size_pass_no_alloc (t_cache s) ts vs W Hc) as [Ha Hcap].
   pose proof (size_pass_size (t_cache s) ts vs) as Hs.
   destruct (size_pass (t_cache s) ts vs) as [[sz c1] a1]. cbn [fst snd] in *. subst sz a1.
   fold (stmt_total ts vs dyn).
   destruct (reserve_fits cf (t_node s) _ Hf) as (off & q1 & Hres). rewrite Hres.
-  cbn [allocs res fst snd t_cache]. rewrite !listed_no_leaf_alloc by assumption. auto.
+  cbn [allocs res fst snd t_cache]. rewrite !listed_no_pass_alloc by assumption. auto.
 Qed.
 
 Theorem steady_no_alloc : forall cf s ts vs dyn,
   t_reg s = true -> iv_wf (t_cache s) ->
   N.of_nat (stmt_cached ts vs) <= INLINE_CAP ->
   fits (t_node s) (stmt_total ts vs dyn) = true ->
-  forallb no_excluded ts = true ->
+  forallb no_excluded ts = true -> forallb map_ok ts = true ->
   allocs (snd (log_step cf s ts vs dyn)) = [] /\ res (snd (log_step cf s ts vs dyn)) = LEnqueued.
 Proof.
-  intros cf s ts vs dyn Hr W Hc Hf Hl.
+  intros cf s ts vs dyn Hr W Hc Hf Hl Hm.
   destruct (steady_no_alloc_cap cf s ts vs dyn Hr W) as (A & B & _); auto.
   destruct W as [W1 _]. lia.
 Qed.
@@ -341,7 +386,7 @@ Theorem steady_no_alloc_reachable : forall cf s ts vs dyn,
   reachable cf s -> t_reg s = true ->
   N.of_nat (stmt_cached ts vs) <= INLINE_CAP ->
   fits (t_node s) (stmt_total ts vs dyn) = true ->
-  forallb no_excluded ts = true ->
+  forallb no_excluded ts = true -> forallb map_ok ts = true ->
   allocs (snd (log_step cf s ts vs dyn)) = [] /\ res (snd (log_step cf s ts vs dyn)) = LEnqueued.
 Proof. intros cf s ts vs dyn Hre Hr. apply steady_no_alloc; [exact Hr | now apply reachable_wf with cf]. Qed.
 
@@ -422,17 +467,20 @@ Proof.
       destruct (iv_push_all l c1') as [c2 al]. cbn [snd] in *. intro Hin. apply in_app_or in Hin.
       destruct Hin as [Hin|Hin]; [destruct b; [destruct Hin as [<-|[]]; eauto | destruct Hin] | auto]. }
     specialize (G pushed c0). destruct (iv_push_all pushed c0) as [c1' al]. inversion Esp; subst. exact G. }
-  assert (Hl : forall e x, In x (flat_map (leaf_alloc e) (stmt_leaves ts vs)) ->
-                           match x with AUserCopy _ _ | APathString _ => True | _ => False end).
-  { intros e x Hin. apply in_flat_map in Hin. destruct Hin as ([t v] & _ & Hin). unfold leaf_alloc in Hin.
+  assert (Hl : forall e x, In x (pass_allocs e ts vs) ->
+                           match x with AUserCopy _ _ | APathString _ | ATempCopy _ _ => True | _ => False end).
+  { intros e x Hin. unfold pass_allocs in Hin. apply in_app_or in Hin. destruct Hin as [Hin|Hin];
+      [| apply in_flat_map in Hin; destruct Hin as (p & _ & Hin); unfold temp_alloc in Hin;
+         destruct (copy_free (fst p)); [destruct Hin | destruct Hin as [<-|[]]; exact I]].
+    apply in_flat_map in Hin. destruct Hin as ([t v] & _ & Hin). unfold leaf_alloc in Hin.
     destruct t as [k w| | |k| | |w a'| | | | | | |]; cbn in Hin; try contradiction.
     - destruct k; cbn in Hin; try contradiction. destruct v; cbn in Hin; try contradiction.
       destruct Hin as [<-|[]]. exact I.
     - destruct v; cbn in Hin; try contradiction. destruct e; cbn in Hin; try contradiction.
       destruct Hin as [<-|[]]. exact I. }
   intro Hin.
-  assert (Hcases : In a a1 \/ In a (flat_map (leaf_alloc false) (stmt_leaves ts vs)) \/ In a (flat_map (leaf_alloc true) (stmt_leaves ts vs))).
-  { destruct r; cbn [allocs snd app] in Hin; repeat (apply in_app_or in Hin; destruct Hin as [Hin|Hin]); auto; destruct Hin. }
+  assert (Hcases : In a a1 \/ In a (pass_allocs false ts vs) \/ In a (pass_allocs true ts vs)).
+  { destruct r; cbn [allocs snd] in Hin; rewrite !in_app_iff in Hin; cbn [In] in Hin; tauto. }
   destruct Hcases as [H1|[H1|H1]].
   - destruct (Ha1 a H1) as [n ->]. exact I.
   - specialize (Hl false a H1). destruct a; auto.
@@ -479,17 +527,44 @@ Definition cstr (n : nat) : val := VB (repeat 97 n).
 (* the state after preallocate() *)
 Definition after_pre (cf : cfg) : tstate := fst (t_step cf (t_init cf) OPre).
 
-(* the nested statement of C04's non-vacuity example, without its non-trivially-copyable argument *)
-Definition ex11_ts : list ty := firstn 8 ex_ts ++ [CStr; DeferredPOD 8].
-Definition ex11_vs : list val := firstn 8 ex_vs ++ [VNull; VB [1; 2; 3; 4; 5; 6; 7; 8]].
+(* a nested statement with most kinds (C04's non-vacuity example with its std::map<std::string, ..> keyed
+   by an integer instead and without its non-trivially-copyable argument) *)
+Definition ex11_ts : list ty :=
+  [ Arith 4; CStr; CharArr 3; Str;
+    Vec (Opt CStr);
+    MapLike KMap (Arith 2) (Arr 2 (CharArr 3));
+    FwdList Direct;
+    Tuple [Enum 1; Pair StrView Ptr; Seq KSet (Arith 2)];
+    CStr; DeferredPOD 8 ].
+Definition ex11_vs : list val :=
+  [ VB [1; 2; 3; 4]; VB [104; 105; 0; 120]; VB [97; 98; 99]; VB (repeat 66 40);
+    VL [VO (Some (VB [122])); VO None; VO (Some VNull)];
+    VL [VL [VB [7; 0]; VL [VB [97; 0; 99]; VB [100; 101; 102]]]];
+    VL [VB [85; 49]; VB []];
+    VL [VB [9]; VL [VB [115; 118]; VB [1; 0; 0; 0; 0; 0; 0; 0]]; VL [VB [1; 0]; VB [2; 0]]];
+    VNull; VB [1; 2; 3; 4; 5; 6; 7; 8] ].
 
 Example steady_no_alloc_nonvacuous :
   reachable ex_unbounded (after_pre ex_unbounded) /\ t_reg (after_pre ex_unbounded) = true /\
+  wt_zip (map wt ex11_ts) ex11_vs /\
   stmt_cached ex11_ts ex11_vs = 10%nat /\
   fits (t_node (after_pre ex_unbounded)) (stmt_total ex11_ts ex11_vs true) = true /\
-  forallb no_excluded ex11_ts = true /\ existsb has_direct ex11_ts = true /\
+  forallb no_excluded ex11_ts = true /\ forallb map_ok ex11_ts = true /\ existsb has_direct ex11_ts = true /\
   allocs (snd (log_step ex_unbounded (after_pre ex_unbounded) ex11_ts ex11_vs true)) = [].
-Proof. split; [exists [OPre]; reflexivity | vm_compute; repeat split]. Qed.
+Proof. split; [exists [OPre]; reflexivity | split; [reflexivity | split; [cbn; repeat split | vm_compute; repeat split]]]. Qed.
+
+(* the full-strength claim "standard containers of strings" is false of the faithful model: a
+   std::map<uint32_t, std::string> (listed kinds only, no cached length, fits) copies every mapped
+   string into a temporary pair, in the size pass and again in the encode pass (finding C11-F1) *)
+Definition rf11_ts : list ty := [MapLike KMap (Arith 4) Str].
+Definition rf11_vs : list val := [VL [VL [VB [1; 0; 0; 0]; VB (repeat 97 16)]]].
+Theorem steady_no_alloc_refuted_map :
+  let s := after_pre ex_bounded in
+  reachable ex_bounded s /\ t_reg s = true /\ wt_zip (map wt rf11_ts) rf11_vs /\
+  stmt_cached rf11_ts rf11_vs = 0%nat /\ fits (t_node s) (stmt_total rf11_ts rf11_vs false) = true /\
+  forallb no_excluded rf11_ts = true /\ forallb map_ok rf11_ts = false /\
+  allocs (snd (log_step ex_bounded s rf11_ts rf11_vs false)) = [ATempCopy Str (VB (repeat 97 16)); ATempCopy Str (VB (repeat 97 16))].
+Proof. split; [exists [OPre]; reflexivity | split; [reflexivity | split; [cbn; repeat split | vm_compute; repeat split]]]. Qed.
 
 (* twelve C strings: no allocation; a 13th cached length allocates (capacity 12 -> 24), also when
    the thirteen lengths come from ONE argument, a std::vector<char const*> of 13 elements *)
